@@ -43,7 +43,7 @@ import (
 	"verif/internal/ev"
 )
 
-var quickPkgs = []string{"deflate", "zlib", "gzip", "lzw", "png", "gif", "json"}
+var quickPkgs = []string{"deflate", "zlib", "gzip", "lzw", "png", "gif", "json", "cbor"}
 
 type tierParams struct {
 	fullDepth, maxDepth int
